@@ -386,6 +386,33 @@ theorem C07_circle_rotation_assembled {m : Nat} (fuel fuel' : Nat) (c : ℝ) (ro
           v rtr) :=
   rotation_solution fuel fuel' c rows outs outs' R hR uOri hori hg hname hdir hother hl hl' hsmall σ P S x v rtr h
 
+/-- **swap of the ends (and any identity-preserving re-expression), assembled.**  (1) A distance with its
+    ends exchanged (`name ∘ swapRole`: the same two points) has the same right-hand side, allocates the
+    same set of unknowns (in the other order) and gives every unknown — by identity — the same
+    coefficient.  (2) Two descriptions of a pass with these two properties in every row build design
+    matrices related by the row permutation `σ⁻¹∘τ` and the column renumbering that matches unknowns by
+    identity, and the least-squares solution of one is the renumbered solution of the other (same
+    residual per observation, same Φ) — for any two processing orders `σ`, `τ`. -/
+theorem C07_swap_assembled {m : Nat} (obs obs' : Fin m → Ob ℝ)
+    (hw : ∀ i, wellTouched (obs i).evs [] = true) (hw' : ∀ i, wellTouched (obs' i).evs [] = true)
+    (hS : touchedSet obs' = touchedSet obs) (hc : ∀ i u, identCoef (obs' i) u = identCoef (obs i) u)
+    (σ τ : Equiv.Perm (Fin m)) :
+    (∀ (fuel : Nat) (o : Obs ℝ) (name : Role → Coord → Unk) (out out' : LinOut ℝ), ¬ hdist o < CUT →
+      Gen.Lin.distance fuel o = .ok out → Gen.Lin.distance fuel (swapObs o) = .ok out' →
+      out'.rhs = out.rhs ∧
+      (touchedU ⟨fun r c => name (swapRole r) c, out'.evs⟩).toFinset = (touchedU ⟨name, out.evs⟩).toFinset ∧
+      ∀ u, identCoef ⟨fun r c => name (swapRole r) c, out'.evs⟩ u = identCoef ⟨name, out.evs⟩ u) ∧
+    codeMatrix obs' τ = (codeMatrix obs σ).submatrix (τ.trans σ.symm) (identCol obs obs' hw hw' hS σ τ) ∧
+    (∀ (rhs : Fin m → ℝ) (W : Matrix (Fin m) (Fin m) ℝ) (S : Finset (Fin (finalState obs σ).maxn))
+      (x : Fin (finalState obs σ).maxn → ℝ) (v : Fin m → ℝ) (rtr : ℝ),
+      LS.IsLSSolution (codeMatrix obs σ) (rhs ∘ σ) (W.submatrix σ σ) S x v rtr →
+      LS.IsLSSolution (codeMatrix obs' τ) (rhs ∘ τ) (W.submatrix τ τ)
+        (S.map (identCol obs obs' hw hw' hS σ τ).symm.toEmbedding)
+        (x ∘ identCol obs obs' hw hw' hS σ τ) (v ∘ (τ.trans σ.symm)) rtr) :=
+  ⟨fun fuel o name out out' h hok hok' => distance_swap_ident fuel o name out out' h hok hok',
+   codeMatrix_ident obs obs' hw hw' hS hc σ τ,
+   fun rhs W S x v rtr h => solution_ident obs obs' hw hw' hS hc σ τ rhs W S x v rtr h⟩
+
 /-! ## statistics -/
 
 /-- **cofactor transport.**  `Q` a reflexive generalised inverse of the normal matrix `N = AᵀPA` that
@@ -537,6 +564,20 @@ example : ∃ (fuel fuel' : Nat) (outs outs' : Fin 2 → LinOut ℝ) (R : Finset
     have hpi := Real.pi_pos
     have : π / 4 * R2CC = 500000 := by unfold R2CC; field_simp; norm_num
     rw [zero_add, this]; unfold HALF; rw [abs_of_pos (by norm_num)]; norm_num
+
+/-- the assembled swap theorem is not vacuous: the 5 m sight and the same sight with its ends exchanged
+    are two one-row passes with the same set of allocated unknowns and the same coefficients by identity -/
+example : ∃ (obs obs' : Fin 1 → Ob ℝ), (∀ i, wellTouched (obs i).evs [] = true) ∧ (∀ i, wellTouched (obs' i).evs [] = true) ∧
+    touchedSet obs' = touchedSet obs ∧ (∀ i u, identCoef (obs' i) u = identCoef (obs i) u) := by
+  have hs' : ¬ hdist (swapObs exactSight) < CUT := by rw [hdist_swap]; exact exactSight_guard
+  obtain ⟨out, h1⟩ : ∃ out, Gen.Lin.distance 0 exactSight = .ok out := ⟨_, Lin.distance_eq 0 _ exactSight_guard⟩
+  obtain ⟨out', h2⟩ : ∃ out', Gen.Lin.distance 0 (swapObs exactSight) = .ok out' := ⟨_, Lin.distance_eq 0 _ hs'⟩
+  have hs := distance_swap_ident 0 exactSight (witnessName 10) out out' exactSight_guard h1 h2
+  refine ⟨fun _ => ⟨witnessName 10, out.evs⟩, fun _ => ⟨fun r c => witnessName 10 (swapRole r) c, out'.evs⟩,
+    fun _ => (Lin.distance_targets 0 _ out exactSight_guard h1).2, fun _ => (Lin.distance_targets 0 _ out' hs' h2).2, ?_,
+    fun _ u => hs.2.2 u⟩
+  unfold touchedSet
+  simp only [hs.2.1]
 
 /-- the cofactor transport is not vacuous: `N = Q = 1` (unit weights, `A = 1`), any subset, signs `(1, -1)` -/
 example : LS.IsReflGInv ((1 : Matrix (Fin 2) (Fin 2) ℝ)ᵀ * 1 * 1) 1 ∧ LS.BelongsTo (1 : Matrix (Fin 2) (Fin 2) ℝ) {0} 1 ∧
